@@ -13,6 +13,9 @@ Ev == T.ev
 GoodIdx(p) == SelectSeq([k \in 1..Len(Ev) |-> k], LAMBDA k : Ev[k].e = "good" /\ Ev[k].p = p)
 \* "it never crashes, deadlocks or stops accepting": every request of a well-behaved peer, after any prefix of
 \* hostile input, is answered - with its own token and echo
+\* ... and a peer that has sent garbage (its connection was closed for it) is served again when it sends a proper request - the very
+\* next datagram included
+C10_ServedAgain == (J /\ Srv) => \A k \in 1..Len(Ev) : (Ev[k].e = "bad" /\ Ev[k].c = "wellformed") => Ev[k].answered
 C10_Alive == (J /\ Srv) => (T.serving /\ \A k \in 1..Len(Ev) : Ev[k].e = "good" => (Ev[k].answered /\ Ev[k].tokok /\ Ev[k].echook))
 \* "messages from one remote address are handled by one logical connection per (remote, local) address pair in
 \*  arrival order": the k-th request of peer p is the k-th request of ONE server-side connection
